@@ -10,7 +10,12 @@ def run(tier):
     exe = driver("asan")
     # M: all spellings of all lines of the bounded family agree with the declarative meaning (AgreesInv)
     # 20: value arguments (DEST_VAR_VALUE) sharing a variable, 21: pair arguments (DEST_PAIR)
-    cfgs, beh = model_behaviours(c, tier, cfgsel=[1, 2, 4, 7, 13, 20, 21])
+    if tier == "quick":
+        cfgs, beh = model_behaviours(c, tier, cfgsel=[1, 2, 4, 7, 13, 20, 21])
+    else:
+        cfgs, beh = model_behaviours(c, tier, cfgsel=[1, 2, 4, 7, 13, 20])
+        cfgs2, beh2 = model_behaviours(c, tier, cfgsel=[21], maxuses=2)      # (three uses of the pair configuration: 1.5 million spellings)
+        beh += beh2
     # R: every spelling of every VALID line of the model through the real handler
     script = os.path.join(c.wd, "replay.ndjson")
     n = behaviours_script(cfgs, beh, script, select=lambda b: b["valid"])
